@@ -536,7 +536,7 @@ Fixpoint unpack_fields (data : list Z) (fs : list (string * (string * Z * Z))) :
     end
   end.
 
-(* ProcessorStatus(**state): the values in the order of the namedtuple's fields, each flattened to a list
+(* ProcessorStatus(state as keyword arguments): the values in the order of the namedtuple's fields, each flattened to a list
    of integers (int -> [v], list/tuple -> its elements, str -> its characters).  App names are taken to be
    ASCII (any other byte: outside the model's domain, reported as OtherError). *)
 Definition processor_status (rd : reader) (p : Z) : result (list (list Z)) :=
